@@ -10,18 +10,59 @@ Bounds (generous linear bounds; measured constants on the repaired tree are ~6x 
   BoC parser on ANY byte string b (inflated count fields):   calls <= 200*len(b) + 600
   dictionary parse of a cell tree with u unfolded nodes:     calls <= 120*u + 400  (result has one entry per path)
   TL deserialize of ANY byte string b:                       calls <= 150*len(b) + 3000
-Not asserted: wall-clock times.
+  dictionary (k entries, 2k-1 cells) whose values reference shared DAGs: calls <= 120*(2k-1) + 60*k + 400 - the DAG under the
+                                                              values is not the parser's business
+Second instrument (two-thread sub-checks): source LINES executed inside the library by the measuring thread (sys.settrace):
+  to_boc <= 80*(n+e)+500, order (twice) <= 50*(n+e)+300, from_boc <= 450*(n+e)+1500, building <= 300*(n+e)+1500 (measured: 13 / 15 /
+  75 / 45 per n+e); parsers: 10 lines per call of the call bound.
+Dimensions besides the input:
+  * logging configuration: the shared-DAG sub-checks run every case twice - interpreter default, and everything logged and
+    rendered (`logging_config`) - so a lazily formatted log argument that prints a cell tree (once per path) is seen;
+  * a second thread: `max-sharing-dags-while-another-thread-uses-the-library` / `parsers-while-another-thread-parses` measure the
+    work of one thread while a real second thread makes complete small library calls at scheduled points (after every k-th line
+    of the measured call; also free-running). Per-call state kept in a class / module attribute that another call resets
+    (a visited set, a memo) costs nothing but work - the bytes stay right - and only under this schedule.
+Not asserted: wall-clock times; what the calls return under threads or logging (C03/C04/C09 do that).
 """
 from hypothesis import strategies as st
 from harness.core import Sub, Fail, call, exc_sig, BudgetExceeded
 from harness.gen import dag, boccases
 from harness.ref import refcell as rc, refboc
-from harness.opcount import counted
+from harness import opcount
+
+
+def counted(f, budget, label):
+    """opcount.counted, plus: a BudgetExceeded that something between the library and us swallowed (a logging handler that renders
+    a record guards itself with `except Exception`) still ends the case - the counter remembers that it fired"""
+    import sys
+    c = opcount.Counter(budget, label)
+    sys.setprofile(c)
+    try:
+        try:
+            v = f()
+        except BudgetExceeded:
+            raise
+        except RecursionError as e:
+            return False, e, c.n
+        except Exception as e:
+            if c.exceeded:
+                raise BudgetExceeded(label)
+            return False, e, c.n
+        if c.exceeded:
+            raise BudgetExceeded(label)
+        return True, v, c.n
+    finally:
+        sys.setprofile(None)
 
 RULE = ('DAG cases = maximal-sharing shapes (doubling ladders of height 1..200, lattices, random DAGs with repeated refs); '
         'parser cases = valid encodings whose count/length fields are rewritten to huge values, and random byte strings with '
-        'valid magic. non-trivial = sharing factor (paths/cells) >= 4, or a rewritten count field; distinct = distinct case')
-ASSUMPTIONS = ['call counts via sys.setprofile restricted to files under pytoniq_core/', 'bounds are linear with generous constants']
+        'valid magic; dictionaries (plain / augmented, 1..16 entries) whose values reference the top of a doubling ladder of height 16..600; '
+        'the sharing shapes and the dictionary cases are run under the default logging configuration and with every record rendered; '
+        'two-thread cases = (shape, measured call, partner call kind, hand-over period k): a second thread makes one small library call '
+        'after every k-th line the measured call executes (k = 1..50, or free-running), work counted in lines of the measuring thread. '
+        'non-trivial = sharing factor (paths/cells) >= 4, or a rewritten count field, or a two-thread / shared-value case; distinct = distinct case')
+ASSUMPTIONS = ['call counts via sys.setprofile / line counts via sys.settrace restricted to files under pytoniq_core/', 'bounds are linear with generous constants',
+               'a hand-over to the second thread inside the trace function is an ordinary thread switch as far as the library can tell']
 
 
 def _ne(cells_root):
@@ -377,16 +418,438 @@ def classify_dict(case):
     yield 'key_len=%d' % case['key_len']
 
 
+
+
+# --------------------------------------------------------------------------------------------------
+# the same work bounds while ANOTHER THREAD uses the library (class-level / module-level per-call state shows only there)
+#
+# Two things are different from the sub-checks above.
+# (1) The instrument. harness/opcount.py counts Python-level *calls*; a traversal that re-walks a shared sub-DAG inside one
+#     function (probing a set, pushing on a list) makes no call at all. Here the work of the measuring thread is the number of
+#     source LINES it executes inside the library (sys.settrace, which - like sys.setprofile - is per thread: the partner
+#     thread's work is not counted), plus the calls. Bounds are again linear in n+e with constants ~6x above what is measured.
+# (2) The schedule. A free-running second thread interleaves wherever the interpreter happens to switch; whether it hits the
+#     window is luck and not replayable. Here the schedule is part of the case: after every `every`-th line of the measured
+#     call the measuring thread hands over to a REAL second thread, which makes one complete small library call (rotating
+#     through a list: serialise / order / parse / build / hash a small bag, or serialise the very DAG being measured) and hands
+#     back. From the library's point of view that is an ordinary thread switch at that line; every window wider than `every`
+#     lines is hit with certainty. (A hand-over that is not answered within 0.2 s - a lock held by the measured call - is
+#     skipped.) One variant ('free') lets the partner run freely with the switch interval at 1 us as well.
+
+import sys as _sys
+import threading as _threading
+
+_LIBDIR = None
+
+
+def _libdir():
+    global _LIBDIR
+    if _LIBDIR is None:
+        import os
+        from harness.core import REPO
+        _LIBDIR = os.path.join(REPO, 'pytoniq_core') + os.sep
+    return _LIBDIR
+
+
+class _Partner:
+    """a second thread that makes one library call per hand-over (or, free=True, calls in a loop until closed)"""
+
+    def __init__(self, thunks, free=False):
+        self.thunks = thunks
+        self.k = 0
+        self.steps = 0
+        self.stop = False
+        self.free = free
+        self.req = _threading.Semaphore(0)
+        self.done = _threading.Semaphore(0)
+        self.th = _threading.Thread(target=self._run, daemon=True)
+        self.th.start()
+
+    def _one(self):
+        t = self.thunks[self.k % len(self.thunks)]
+        self.k += 1
+        try:
+            t()
+        except Exception:
+            pass                              # what the partner's call returns is not this property's business
+
+    def _run(self):
+        if self.free:
+            self.req.acquire()
+            while not self.stop:
+                self._one()
+            return
+        while True:
+            self.req.acquire()
+            if self.stop:
+                return
+            self._one()
+            self.done.release()
+
+    def step(self):
+        self.steps += 1
+        if self.free:
+            if self.steps == 1:
+                self.req.release()
+            return
+        self.req.release()
+        self.done.acquire(timeout=0.2)
+
+    def close(self):
+        self.stop = True
+        self.req.release()
+        self.th.join(2)
+
+
+def lines_counted(f, budget, label, every=0, partner=None):
+    """-> (ok, value_or_exception, lines). Lines executed inside the library by this thread while running f; BudgetExceeded as soon
+    as they pass `budget`. every > 0: after every `every`-th line the partner thread makes one library call."""
+    prefix = _libdir()
+    state = {'n': 0, 'exceeded': False}
+
+    def local(frame, event, arg):
+        if event == 'line':
+            n = state['n'] = state['n'] + 1
+            if n > budget:
+                state['exceeded'] = True
+                _sys.settrace(None)
+                raise BudgetExceeded(label)
+            if every and n % every == 0 and partner is not None:
+                partner.step()
+        return local
+
+    def glob(frame, event, arg):
+        if event == 'call' and frame.f_code.co_filename.startswith(prefix):
+            return local
+        return None
+
+    old = _sys.gettrace()
+    _sys.settrace(glob)
+    try:
+        try:
+            v = f()
+        except BudgetExceeded:
+            raise
+        except RecursionError as e:
+            return False, e, state['n']
+        except Exception as e:
+            if state['exceeded']:
+                raise BudgetExceeded(label)
+            return False, e, state['n']
+        if state['exceeded']:
+            raise BudgetExceeded(label)
+        return True, v, state['n']
+    finally:
+        _sys.settrace(old)
+
+
+import contextlib as _contextlib
+
+
+@_contextlib.contextmanager
+def logging_config(verbose):
+    """for the duration of the block the process has one of the two logging configurations, whatever the shard's own is:
+    verbose=False - the interpreter's default (root logger at WARNING, no handler);
+    verbose=True  - everything is logged: root logger at level 1 with a handler that renders every record, so lazily formatted
+                    arguments ARE formatted (what core._noisy_environment() gives to the odd shards).
+    Switched on and off by the case itself, so every case is seen under BOTH configurations whatever shard it is dealt to.
+    An application's logging configuration is not part of any input: the work bounds hold under it as they are."""
+    import logging
+
+    class _Render(logging.Handler):
+        def emit(self, record):
+            try:
+                record.getMessage()
+            except BudgetExceeded:
+                raise
+            except Exception:
+                pass
+
+    root = logging.getLogger()
+    old_level, old_disable, old_handlers = root.level, root.manager.disable, root.handlers[:]
+    root.handlers[:] = [_Render(level=1)] if verbose else []
+    root.setLevel(1 if verbose else logging.WARNING)
+    logging.disable(0)
+    try:
+        yield
+    finally:
+        root.handlers[:] = old_handlers
+        root.setLevel(old_level)
+        logging.disable(old_disable)
+
+
+def check_dag_both_environments(case):
+    with logging_config(False):
+        f = check_dag(case)
+    if f is not None:
+        return f
+    try:
+        with logging_config(True):
+            f = check_dag(case)
+    except BudgetExceeded as e:
+        raise BudgetExceeded(f'verbose-logging/{e}')
+    if f is not None:
+        return Fail('verbose-logging/' + f.signature, f.detail)
+    return None
+
+
+def check_boc_invalid_top_both_environments(case):
+    with logging_config(False):
+        check_boc_invalid_top(case)
+    try:
+        with logging_config(True):
+            check_boc_invalid_top(case)
+    except BudgetExceeded as e:
+        raise BudgetExceeded(f'verbose-logging/{e}')
+    return None
+
+
+# bounds in LINES (measured on the repaired tree: to_boc ~13 lines per cell-or-reference, order ~7.5, from_boc ~75, building ~45)
+def _line_bounds(n, e):
+    return {'to_boc': 80 * (n + e) + 500, 'order': 50 * (n + e) + 300, 'from_boc': 450 * (n + e) + 1500, 'build': 300 * (n + e) + 1500}
+
+
+def _partner_thunks(kind, root):
+    from pytoniq_core.boc.cell import Cell
+    from pytoniq_core.boc.builder import Builder
+    from pytoniq_core.boc.hashmap import HashMap
+    leaf = Builder().store_uint(7, 8).end_cell()
+    small = Builder().store_uint(1, 3).store_ref(leaf).store_ref(leaf).end_cell()
+    small_boc = small.to_boc()
+    dcell = HashMap(8).set_int_key(1, Builder().store_uint(5, 8).end_cell()).set_int_key(200, leaf).serialize()
+    table = {
+        'to_boc-small': [lambda: small.to_boc(), lambda: leaf.to_boc(True, True)],
+        'order-small': [lambda: small.order(), lambda: leaf.order()],
+        'from_boc-small': [lambda: Cell.one_from_boc(small_boc)],
+        'build-small': [lambda: Builder().store_uint(9, 16).store_ref(small).store_ref(small).end_cell().hash],
+        'dict-small': [lambda: HashMap.parse(dcell.begin_parse(), 8), lambda: str(small.begin_parse())],
+        'same-dag': [lambda: root.to_boc(), lambda: root.order()],
+    }
+    if kind == 'mixed':
+        return [t for k in ('to_boc-small', 'from_boc-small', 'order-small', 'build-small', 'dict-small') for t in table[k]]
+    return table[kind]
+
+
+def _with_partner(make_f, line_budget, label, every, thunks, handovers):
+    """runs f = make_f(label) once alone (lines L0 - also an ordinary single-threaded bound check, labelled lines/...) and once with the
+    partner thread stepping in after every max(every, L0 // handovers)-th line (every = 0: partner runs freely, switch interval 1 us)"""
+    alone = label.replace('two-threads/', 'lines/')
+    ok, v, l0 = lines_counted(make_f(alone), line_budget, alone)
+    f = make_f(label)
+    partner = _Partner(thunks, free=(every == 0))
+    old = _sys.getswitchinterval()
+    if every == 0:
+        _sys.setswitchinterval(1e-6)
+    try:
+        lines_counted(f, line_budget, label, every=max(every, l0 // handovers, 1), partner=partner)
+    finally:
+        _sys.setswitchinterval(old)
+        partner.close()
+
+
+def check_dag_two_threads(case):
+    """one bound of check_dag (case['op']), in lines executed by the measuring thread, while a second thread makes library calls at
+    the points given by the case (after every `every`-th line of the measured call; every = 0: whenever the interpreter switches)"""
+    from pytoniq_core.boc.cell import Cell
+    cells = dag.build_ref(case['spec'])
+    n, e = _ne(cells[-1])
+    lb = _line_bounds(n, e)
+    every, op = case['every'], case['op']
+    lib = dag.lib_from_ref(cells, 'builder')
+    root = lib[-1]
+    if op == 'build':
+        f, key = (lambda: dag.lib_from_ref(cells, 'builder')), 'build'
+    elif op == 'to_boc':
+        f, key = (lambda: root.to_boc()), 'to_boc'
+    elif op == 'to_boc-flags':
+        f, key = (lambda: root.to_boc(True, True, True)), 'to_boc'
+    elif op == 'order':
+        f, key = (lambda: (root.order(), root.order())), 'order'
+    elif op == 'from_boc':
+        boc0 = root.to_boc()
+        f, key = (lambda: Cell.one_from_boc(boc0)), 'from_boc'
+    elif op == 'reserialise-parsed':
+        parsed = Cell.one_from_boc(root.to_boc())       # fresh objects, one per cell of the bag, shared like in the bag
+        f, key = (lambda: parsed.to_boc()), 'to_boc'
+    else:
+        raise ValueError(op)
+    _with_partner(lambda label: f, lb[key], 'two-threads/' + key, every, _partner_thunks(case['partner'], root), 40 if case['partner'] == 'same-dag' else 250)
+    return None                     # what the call returns / raises under threads belongs to C03/C04; here: bounded work
+
+
+def enum_two_threads(tier):
+    shapes = [('ladder', ladder(16)), ('ladder', ladder(30)), ('ladder', ladder(60)), ('ladder4', ladder(12, 4)), ('lattice', lattice(20)),
+              ('ladder-on-pruned-mask1', ladder(16, leaf={'k': 'P', 'm': 1, 's': '%08x' % 16, 'd': [0, 1, 2]}))]
+    if tier == 'thorough':
+        shapes += [('ladder', ladder(200)), ('ladder', ladder(400)), ('lattice', lattice(100)), ('ladder4', ladder(60, 4))]
+    partners = ['to_boc-small', 'order-small', 'from_boc-small', 'build-small', 'dict-small', 'same-dag', 'mixed']
+    # hand-over periods tried per measured call (lower bound: a case never makes more than ~250 hand-overs on a tree where the
+    # property holds - the period is raised to lines-alone / 250 for the big calls)
+    base = {'order': (1, 2, 3, 5), 'to_boc': (1, 3, 7, 20), 'to_boc-flags': (2, 5, 11), 'from_boc': (5, 11, 50), 'build': (5, 11, 50),
+            'reserialise-parsed': (2, 7, 13)}
+    k = 0
+    for shape, spec in shapes:
+        for op, evs in base.items():
+            for p in partners:
+                k += 1
+                if tier == 'quick' and p not in ('mixed', 'same-dag') and k % 2:
+                    continue
+                yield {'spec': spec, 'shape': shape, 'partner': p, 'op': op, 'every': evs[k % len(evs)]}
+            yield {'spec': spec, 'shape': shape, 'partner': 'mixed', 'op': op, 'every': 0}
+
+
+def classify_two_threads(case):
+    yield 'shape=' + case['shape']
+    yield 'partner=' + case['partner']
+    yield 'measured=' + case['op']
+    ev = case['every']
+    yield 'hand-over=' + ('free-running' if ev == 0 else 'every-line' if ev == 1 else 'every-2..5-lines' if ev <= 5 else 'every-6..20-lines' if ev <= 20
+                          else 'every-21+-lines')
+
+
+def check_parser_two_threads(case):
+    """the parsers' bounds (calls, as in the single-threaded sub-checks, and lines = 10 x that) while a second thread runs the same
+    parser on another small input at the points given by the case"""
+    from pytoniq_core.boc.hashmap.parse import parse_hashmap
+    from pytoniq_core.boc.hashmap import HashMap
+    from pytoniq_core.boc.builder import Builder
+    kind, every = case['kind'], case['every']
+    if kind == 'tl':
+        from harness.props import c14
+        g, schemas = c14._schemas()
+        data = _tl_bytes(case['input'])
+        cid = data[:4]                                   # the partner parses small objects of the same constructor: flat, and nested twice
+        flat = cid + _tl_str(b'\x01\x02\x03')
+        other = [flat, cid + _tl_str(cid + _tl_str(flat) + b'\xde\xad\xbe\xef')]
+        f, bound, label = (lambda: schemas.deserialize(data)), 150 * len(data) + 3000, 'two-threads/tl-deserialize'
+        thunks = [(lambda o=o: schemas.deserialize(o)) for o in other] or [lambda: None]
+    else:
+        if kind == 'dict-ladder':
+            cell, u, n = dag.lib_from_rcell(_dict_tree(case['input'])), _unfolded(case['input']), case['input']['key_len']
+        else:
+            root, k = _dict_with_values(case['input'])
+            cell, u, n = dag.lib_from_rcell(root), 2 * k - 1, case['input']['key_len']
+        f, bound, label = (lambda: (parse_hashmap(cell.begin_parse(), n), HashMap.parse(cell.begin_parse(), n))), 2 * (120 * u + 400), 'two-threads/dict-parse'
+        leaf = Builder().store_uint(7, 8).end_cell()
+        dcell = HashMap(8).set_int_key(1, leaf).set_int_key(200, leaf).set_int_key(77, leaf).serialize()
+        thunks = [lambda: HashMap.parse(dcell.begin_parse(), 8), lambda: parse_hashmap(dcell.begin_parse(), 8), lambda: HashMap.from_cell(dcell, 8).serialize()]
+    # the logging dimension is dict-parser-values-over-shared-dags' business: here the default configuration, whatever the shard's is
+    with logging_config(False):
+        _with_partner(lambda lab: (lambda: counted(f, bound, lab)), 10 * bound, label, every, thunks, 100)
+    return None
+
+
+def enum_parser_two_threads(tier):
+    k = 0
+    evs = (1, 2, 3, 5, 7, 11, 20, 0)
+    for x in enum_tl_nesting(tier):
+        d = int(x['shape'].split('=')[1])
+        if d in (8, 16) or (tier == 'thorough' and d <= 30):
+            for j in range(2 if tier == 'quick' else 4):
+                k += 1
+                ev = evs[k % len(evs)]
+                yield {'kind': 'tl', 'input': x, 'every': ev, 'shape': 'tl-nested-bytes/' + x['shape']}
+    for x in enum_dict_ladders(tier):
+        if len(x['nodes']) - 1 in (3, 6, 8) or (tier == 'thorough' and len(x['nodes']) <= 11):
+            for j in range(2 if tier == 'quick' else 4):
+                k += 1
+                ev = evs[k % len(evs)]
+                yield {'kind': 'dict-ladder', 'input': x, 'every': ev, 'shape': 'dict-ladder/h=%d' % (len(x['nodes']) - 1)}
+    for x in enum_dict_values(tier):
+        if x['h'] in (20, 48) and not x.get('aug'):
+            k += 1
+            yield {'kind': 'dict-values', 'input': x, 'every': evs[k % len(evs)], 'shape': 'dict-values-over-ladder'}
+
+
+# --------------------------------------------------------------------------------------------------
+# dictionaries whose VALUES reference shared DAGs: the parser reads the dictionary's own cells and hands the values out;
+# what a value references is none of its business - in either logging configuration
+
+def _dict_with_values(case):
+    from harness.ref import refdict
+    top = dag.build_ref(ladder(case['h'], case.get('w', 2)))[-1]
+    n = case['key_len']
+    mapping = {}
+    for i, k in enumerate(case['keys']):
+        refs = [top] * case['vrefs'][i % len(case['vrefs'])]
+        mapping[format(k % (1 << n), '0%db' % n)] = (format((i * 37 + 5) % 256, '08b'), refs)
+    extra_of = (lambda keys, is_leaf, path: (format(len(keys) % 256, '08b'), [])) if case.get('aug') else None
+    return refdict.build(mapping, n, extra_of=extra_of), len(mapping)
+
+
+def check_dict_values(case):
+    from pytoniq_core.boc.cell import Cell
+    from pytoniq_core.boc.builder import Builder
+    from pytoniq_core.boc.hashmap.parse import parse_hashmap
+    from pytoniq_core.boc.hashmap import HashMap
+    root, k = _dict_with_values(case)
+    u = 2 * k - 1                                   # dictionary cells: k leaves, k-1 forks
+    n = case['key_len']
+    built = dag.lib_from_rcell(root)
+    ncells, nrefs = _ne(root)
+    ok, boc, _ = counted(lambda: built.to_boc(), 40 * (ncells + nrefs) + 200, 'to_boc')
+    if not ok:
+        return Fail(f'to_boc-raises/{type(boc).__name__}', f'{exc_sig(boc)}: {boc!r}')
+    ok, parsed, _ = counted(lambda: Cell.one_from_boc(boc), 150 * (ncells + nrefs) + 400, 'from_boc')
+    if not ok:
+        return Fail(f'from_boc-raises/{type(parsed).__name__}', f'{exc_sig(parsed)}: {parsed!r}')
+    bound = 120 * u + 60 * k + 400
+
+    def rd(s):
+        return (s.load_uint(8), s.load_ref().hash)
+
+    for env in ('default', 'verbose-logging'):
+        with logging_config(env == 'verbose-logging'):
+            for cell in (built, parsed):
+                wrapped = Builder().store_bit(1).store_ref(cell).end_cell()
+                if case.get('aug'):
+                    fs = [lambda: cell.begin_parse().load_hashmap_aug(n, lambda s: s, lambda s: s.load_uint(8)),
+                          lambda: wrapped.begin_parse().load_hashmap_aug_e(n, lambda s: s, lambda s: 0)]
+                else:
+                    fs = [lambda: parse_hashmap(cell.begin_parse(), n),
+                          lambda: HashMap.parse(cell.begin_parse(), n),
+                          lambda: HashMap.parse(cell.begin_parse(), n, None, rd),
+                          lambda: HashMap.from_cell(cell, n),
+                          lambda: cell.begin_parse().load_hashmap(n, value_deserializer=rd),
+                          lambda: wrapped.begin_parse().load_dict(n),
+                          lambda: wrapped.begin_parse().preload_dict(n, None, rd)]
+                for f in fs:
+                    counted(f, bound, 'dict-parse' if env == 'default' else 'verbose-logging/dict-parse')
+    return None
+
+
+def enum_dict_values(tier):
+    hs = (20, 30, 48, 100, 250) if tier == 'quick' else (16, 20, 24, 30, 40, 48, 64, 100, 250, 600)
+    i = 0
+    for h in hs:
+        for key_len, keys in ((8, [1, 2]), (1, [0, 1]), (8, [0]), (16, [3, 77, 1000, 65535, 4096]), (32, list(range(0, 160, 10))), (256, [1 << 255, 5, 6])):
+            for aug in (False, True):
+                for vrefs in ([1], [2], [4], [1, 0, 2]):
+                    i += 1
+                    if tier == 'quick' and (i + h) % 3:
+                        continue
+                    yield {'h': h, 'key_len': key_len, 'keys': keys, 'vrefs': vrefs, 'aug': aug, 'w': 2 if i % 4 else 3}
+
+
+def classify_dict_values(case):
+    yield 'value-ladder-height=%d' % case['h']
+    yield 'entries=%d' % len(case['keys'])
+    yield 'aug' if case.get('aug') else 'plain'
+    yield 'environment=default+verbose-logging'
+
+
 SUBCHECKS = [
-    Sub('max-sharing-dags', check_dag, enum=enum_sharing, classify=classify, nontrivial=nt, shards=(16, 16), case_cpu_s=10,
-        timeout_is_violation=True, note='doubling ladders (2 and 4 refs to the same child) and lattices, height 1..40, 60, 100, 200'),
+    Sub('max-sharing-dags', check_dag_both_environments, enum=enum_sharing, classify=classify, nontrivial=nt, shards=(16, 16), case_cpu_s=10,
+        timeout_is_violation=True, note='doubling ladders (2 and 4 refs to the same child) and lattices, height 1..40, 60, 100, 200; every case under the default '
+             'logging configuration and again with everything logged and rendered'),
     Sub('random-dags', check_dag, strategy=strat_dag, classify=classify, nontrivial=nt, n=(600, 10000), shards=(8, 32), case_cpu_s=10,
         timeout_is_violation=True),
     Sub('boc-parser-inflated-counts', check_boc_bytes, strategy=strat_boc_bytes, classify=classify, nontrivial=nt, n=(2000, 60000),
         shards=(8, 32), case_cpu_s=10, timeout_is_violation=True),
-    Sub('boc-parser-invalid-cell-over-shared-dag', check_boc_invalid_top, enum=enum_boc_invalid_top, shards=(8, 8), case_cpu_s=10,
+    Sub('boc-parser-invalid-cell-over-shared-dag', check_boc_invalid_top_both_environments, enum=enum_boc_invalid_top, shards=(8, 8), case_cpu_s=10,
         classify=lambda c: ['type=%d' % c['type'], 'h=%d' % c['h']], nontrivial=lambda c: True,
-        note='ladders of height 20..250 (2^20..2^250 paths) under a root cell of exotic type 0/1/2/3/4/9/255 with wrong reference counts / data'),
+        note='ladders of height 20..250 (2^20..2^250 paths) under a root cell of exotic type 0/1/2/3/4/9/255 with wrong reference counts / data; '
+             'both logging configurations'),
     Sub('tl-parser-adversarial-counts', check_tl_bytes, strategy=strat_tl, classify=classify_tl, n=(3000, 100000), shards=(8, 32),
         case_cpu_s=10, timeout_is_violation=True,
         note='valid TL encodings (reference encoder) with vector counts / string length prefixes / flags rewritten to huge values, '
@@ -397,4 +860,19 @@ SUBCHECKS = [
         timeout_is_violation=True, note='full 2^h-entry dictionaries as ladders h=1..12, with matching and non-matching key lengths'),
     Sub('dict-parser-arbitrary-trees', check_dict_tree, strategy=strat_dict, classify=classify_dict, n=(1500, 40000), shards=(8, 32),
         case_cpu_s=10, timeout_is_violation=True, note='arbitrary binary cell DAGs read as dictionaries (labels valid or not)'),
+    Sub('dict-parser-values-over-shared-dags', check_dict_values, enum=enum_dict_values, classify=classify_dict_values, shards=(8, 16),
+        case_cpu_s=10, timeout_is_violation=True, nontrivial=lambda c: True,
+        note='valid dictionaries (plain and augmented, 1..16 entries, key length 1..256) whose values hold 0..4 references to the top of a '
+             'doubling ladder of height 16..600 (2^h paths, a few hundred bytes as a bag of cells): every dictionary entry point, on built and '
+             'on parsed cells, under the default logging configuration and with everything logged and rendered; bound = dictionary cells only'),
+    Sub('max-sharing-dags-while-another-thread-uses-the-library', check_dag_two_threads, enum=enum_two_threads, classify=classify_two_threads,
+        shards=(8, 16), case_cpu_s=20, timeout_is_violation=True, nontrivial=lambda c: True,
+        note='ladders / lattices built, serialised, parsed, re-serialised, ordered while a second thread makes one small library call '
+             '(serialise / order / parse / build / dictionary / the same DAG) after every k-th line (k = 1..50, a deterministic schedule) or '
+             'runs freely; work of the measuring thread counted in lines executed inside the library'),
+    Sub('parsers-while-another-thread-parses', check_parser_two_threads, enum=enum_parser_two_threads, shards=(8, 16), case_cpu_s=20,
+        timeout_is_violation=True, nontrivial=lambda c: True,
+        classify=lambda c: [c['shape'].split('/')[0], 'hand-over=' + ('free-running' if c['every'] == 0 else 'scheduled')],
+        note='TL objects nested through bytes fields, ladder dictionaries and dictionaries with values over shared DAGs, parsed while a second '
+             'thread runs the same parser on another small input after every k-th line (or freely)'),
 ]
